@@ -20,8 +20,12 @@ def hiddenId : Nat := 999999
 def terminal (t : Thread) : Bool :=
   match t.pc with
   | .gDone => !t.isFlight
-  | .gFin | .vAccept | .vReject => true
+  | .gFin | .vAccept | .vReject | .gCancelled | .vCancelled => true
   | _ => false
+
+/-- a client call whose context is cancelled and which is blocked where the code selects on `ctx.Done()` -/
+def abortable (t : Thread) : Bool :=
+  t.cancelled && !t.isFlight && !t.isUpd && (t.pc == .gWait || t.pc == .gIssued || t.pc == .vWait)
 
 /-- steps a goroutine takes without the harness: everything except waiting for PD, for the response
     (released by `arrive`) and for a flight -/
@@ -41,7 +45,10 @@ def settle : Nat → D → D
   | 0, d => d
   | fuel + 1, d =>
     match (d.ids ++ d.flights ++ d.upds).find? (fun i => autoRunnable (d.s.thr i)) with
-    | none => d
+    | none =>
+      match d.ids.find? (fun i => abortable (d.s.thr i)) with
+      | none => d
+      | some i => settle fuel { d with s := step d.s (.abort i) }
     | some i =>
       let startsFlight := (d.s.thr i).pc == .vJoin && d.s.flight.isNone
       let s' := step d.s (.run i d.nextFlight)
@@ -60,6 +67,7 @@ def resStr (t : Thread) : String :=
   | .gDone | .gFin => toString t.ts
   | .vAccept => "accept"
   | .vReject => "reject"
+  | .gCancelled | .vCancelled => "cancelled"
   | _ => "?"
 
 def insertSorted (x : Nat) : List Nat → List Nat
@@ -193,7 +201,7 @@ def doReset (d : D) (mode pd0 en : String) (upd : Bool) : D × String :=
   | _, _ => (d, "bad-op")
 
 def needsOracle (op : String) : Bool :=
-  ["get", "aget", "val", "issue", "arrive", "tick", "low", "check", "isexp", "until", "p-exp"].contains op
+  ["get", "aget", "val", "issue", "arrive", "tick", "cancel", "low", "check", "isexp", "until", "p-exp"].contains op
 
 def step13' (d : D) (line : String) : D × String :=
   if !d.live && needsOracle ((words line).headD "") then (d, "bad-op") else
@@ -227,6 +235,14 @@ def step13' (d : D) (line : String) : D × String :=
       let s1 := step d.s (.pdIssue i inc)
       (record { d with s := s1 }, toString s1.pdLast)
     | _, _ => (d, "bad-op")
+  | ["cancel", t] =>
+    match t.toNat? with
+    | some i =>
+      if !d.ids.contains i then (d, "bad-op")
+      else
+        let d1 := ({ d with s := step d.s (.cancel i) }).settled
+        (record d1, outcome d d1)
+    | none => (d, "bad-op")
   | ["tick"] =>
     -- one tick of the background updater; refused while the previous one is still on its way
     if !d.hasUpd || d.upds.any (fun u => !terminalUpd (d.s.thr u)) then (d, "bad-op")
@@ -304,7 +320,7 @@ def step13' (d : D) (line : String) : D × String :=
 /-- as in the harness: after every op that lets the oracle move the property oracle is evaluated on the whole history -/
 def step13 (d : D) (line : String) : D × String :=
   let (d', out) := step13' d line
-  if ["get", "aget", "val", "issue", "arrive", "tick"].contains ((words line).headD "") && d'.live && out != "bad-op" then
+  if ["get", "aget", "val", "issue", "arrive", "tick", "cancel"].contains ((words line).headD "") && d'.live && out != "bad-op" then
     let c := checkAll d'
     if c != "ok" then (d', c ++ " | " ++ out) else (d', out)
   else (d', out)
